@@ -8,8 +8,15 @@ Cells:
   cache      a function wrapped by a decorator other than staticmethod/classmethod/property
   global     a module-level name bound to a mutable object (list/dict/set literal or a call other
              than logging.getLogger / re.compile / namedtuple-like constants) or declared `global`
-  classattr  a class-level attribute bound to a mutable object in the class body, or assigned through
-             `cls.X = ...` / `ClassName.X = ...` / `self.__class__.X = ...`
+  classattr  a class-level attribute bound to a mutable object in the class body, or assigned (plain, augmented or
+             annotated assignment, or setattr with a literal name) through a reference to the class:
+             `cls.X = ...` / `ClassName.X = ...` / `<expr>.__class__.X = ...` / `type(<expr>).X = ...`.
+             Cells are keyed by attribute NAME (class-insensitive: over-approximate), so afterwards every
+             `<anything>.X` load -- in particular `self.X`, which falls through to the class when the instance
+             has no such attribute -- is a read of the cell, every `<anything>.X.append(...)`/`[k] = v`/`+=`
+             a write.  setattr on a class with a computed name is the cell `dynamic:setattr-on-class`.
+  global     also: attribute or item assignment on a module-level object (`STATE.x = v`), and assignment to
+             another package module's global through its import (`utils.X = v`)
   defaultarg a mutable default argument
   fnattr     an attribute set on a function object
   environ    os.environ[...] written by the package
@@ -49,6 +56,17 @@ def is_mutable_value(v):
         f = v.func
         name = f.id if isinstance(f, ast.Name) else (f.attr if isinstance(f, ast.Attribute) else None)
         return name not in IMMUTABLE_CALLS
+    return False
+
+
+def is_class_ref(g, base):
+    """expression that denotes a class object: cls, a package class name, <expr>.__class__, type(<expr>)"""
+    if isinstance(base, ast.Name):
+        return base.id == "cls" or bool(g.class_by_short(base.id))
+    if isinstance(base, ast.Attribute):
+        return base.attr == "__class__" or bool(g.class_by_short(base.attr))     # Outer.Inner
+    if isinstance(base, ast.Call) and isinstance(base.func, ast.Name) and base.func.id == "type" and len(base.args) == 1:
+        return True
     return False
 
 
@@ -122,19 +140,33 @@ class StateAnalysis:
                     targets = n.targets
                 elif isinstance(n, (ast.AugAssign, ast.AnnAssign)):
                     targets = [n.target]
+                if isinstance(n, ast.Call) and isinstance(n.func, ast.Name) and n.func.id in ("setattr", "delattr") and n.args \
+                        and is_class_ref(g, n.args[0]):
+                    nm = n.args[1] if len(n.args) > 1 else None
+                    if isinstance(nm, ast.Constant) and isinstance(nm.value, str):
+                        class_attrs[nm.value] = self.cell(f"classattr:{nm.value}", "classattr")
+                        self.w(q, class_attrs[nm.value])
+                    else:
+                        c = self.cell("dynamic:setattr-on-class", "classattr")
+                        self.w(q, c)
+                        self.fl(q, c)
                 for t in targets:
+                    if isinstance(t, ast.Subscript) and isinstance(t.value, ast.Attribute) and is_class_ref(g, t.value.value):
+                        t = t.value                  # cls.X[k] = v
                     if isinstance(t, ast.Attribute):
                         base = t.value
-                        if isinstance(base, ast.Name) and (base.id == "cls" or g.class_by_short(base.id)):
-                            class_attrs[t.attr] = self.cell(f"classattr:{t.attr}", "classattr")
-                            self.w(q, class_attrs[t.attr])
-                        elif isinstance(base, ast.Attribute) and base.attr == "__class__":
-                            class_attrs[t.attr] = self.cell(f"classattr:{t.attr}", "classattr")
-                            self.w(q, class_attrs[t.attr])
-                        elif isinstance(base, ast.Name) and base.id == "sys" and t.attr in ("stdout", "stderr"):
+                        imp = g.mod_imports[f.module].get(base.id) if isinstance(base, ast.Name) else None
+                        if isinstance(base, ast.Name) and base.id == "sys" and t.attr in ("stdout", "stderr"):
                             self.w(q, self.cell(f"stream:sys.{t.attr}", "stream"))
+                        elif is_class_ref(g, base):
+                            class_attrs[t.attr] = self.cell(f"classattr:{t.attr}", "classattr")
+                            self.w(q, class_attrs[t.attr])
                         elif isinstance(base, ast.Name) and (f"{f.module}.{base.id}" in g.fns):
                             self.w(q, self.cell(f"fnattr:{f.module}.{base.id}.{t.attr}", "fnattr"))
+                        elif imp and imp[0] == "pkgmod" and imp[1] in module_globals:
+                            # utils.X = v from another module: a write of that module's global
+                            module_globals[imp[1]][t.attr] = self.cell(f"global:{imp[1]}.{t.attr}", "global")
+                            self.w(q, module_globals[imp[1]][t.attr])
                     if isinstance(t, ast.Subscript) and isinstance(t.value, ast.Attribute) and t.value.attr == "environ":
                         key = t.slice.value if isinstance(t.slice, ast.Constant) else "*"
                         self.w(q, self.cell(f"environ:{key}", "environ"))
@@ -183,12 +215,31 @@ class StateAnalysis:
             if isinstance(n, (ast.Assign, ast.AugAssign, ast.Delete)):
                 tg = n.targets if isinstance(n, (ast.Assign, ast.Delete)) else [n.target]
                 for t in tg:
+                    if isinstance(n, ast.AugAssign) and isinstance(t, ast.Attribute) and t.attr in self.class_attrs:
+                        # self.X += v: reads the class-level object; a mutable one is changed in place
+                        self.w(q, self.class_attrs[t.attr])
+                        self.fl(q, self.class_attrs[t.attr])
+                    if isinstance(t, (ast.Attribute, ast.Subscript)):
+                        b = t.value
+                        while isinstance(b, (ast.Attribute, ast.Subscript)):
+                            b = b.value
+                        if isinstance(b, ast.Name) and b.id in mg and b.id not in local_names:
+                            self.w(q, mg[b.id])          # GLOBAL_OBJECT.attr = v / GLOBAL_OBJECT.a[k] = v
                     if isinstance(t, ast.Subscript):
                         b = t.value
                         if isinstance(b, ast.Name) and b.id in mg and b.id not in local_names:
                             self.w(q, mg[b.id])
                         if isinstance(b, ast.Attribute) and b.attr in self.class_attrs:
                             self.w(q, self.class_attrs[b.attr])
+            # another module's global read as `mod.X`, or imported by name
+            if isinstance(n, ast.Attribute) and isinstance(n.value, ast.Name) and isinstance(n.ctx, ast.Load):
+                imp = self.g.mod_imports[f.module].get(n.value.id)
+                if imp and imp[0] == "pkgmod" and n.attr in self.module_globals.get(imp[1], {}) and n.value.id not in local_names:
+                    self.fl(q, self.module_globals[imp[1]][n.attr])
+            if isinstance(n, ast.Name) and isinstance(n.ctx, ast.Load) and n.id not in local_names:
+                imp = self.g.mod_imports[f.module].get(n.id)
+                if imp and imp[0] == "pkgobj" and imp[2] in self.module_globals.get(imp[1], {}):
+                    self.fl(q, self.module_globals[imp[1]][imp[2]])
             # class attribute reads
             if isinstance(n, ast.Attribute) and n.attr in self.class_attrs and isinstance(n.ctx, ast.Load):
                 if id(n) in benign_nodes:
